@@ -4,7 +4,7 @@ against it (applied to /repo, reverted straight afterwards) and store it under /
 import json, os, shutil, subprocess, sys, time
 pid = sys.argv[1]
 name = sys.argv[2] if len(sys.argv) > 2 else pid + '_a'
-wt = f'/tmp/mut_{pid}'
+wt = sys.argv[3] if len(sys.argv) > 3 else f'/tmp/mut_{pid}'
 mut = f'{wt}/_mut'
 VERIF = '/verif'
 
